@@ -153,6 +153,10 @@ def judge(path):
                 continue
             if ev[0] == "STATS":
                 out["n"] += ev[1]
+                if len(ev) > 3 and ev[3]:
+                    out["c"]["gets.with_a_struct_that_carries_a_refused_get"] = out["c"].get("gets.with_a_struct_that_carries_a_refused_get", 0) + ev[3]
+                if len(ev) > 2 and ev[2]:
+                    out["c"]["seq.near_miss_number_then_int_replace"] = out["c"].get("seq.near_miss_number_then_int_replace", 0) + ev[2]
                 continue
             if ev[0] != "O":
                 continue
